@@ -39,7 +39,7 @@ CLAIMS = {
     'C13': dict(cat='exploration', engine='mcexpert', tech='bounded-exhaustive enumeration + graded family against quad-precision exact solutions',
                 text='Returned berr equals the recomputed componentwise backward error of the returned X (on the equilibrated system), is O((n+1)eps) for cond<1/sqrt(eps); 40*ferr dominates the true relative error against the quad-precision exact solution of the original system; all trans/equed/precision combinations.', ref='5 C13'),
     'C14': dict(cat='fault_enumeration', engine='mcfault', tech='exhaustive fault enumeration: every allocation index k of every driver call, every user-workspace size, with crash classification in forked children',
-                text='For each driver call of a menu (4 matrices x 3 entry paths x 1-4 threads x 4 precisions): request k and all later fail for EVERY k up to the measured number of requests (and single failures); every lwork in 4-byte steps up to 1.25 x the queried estimate with red zones (also with the smallest sufficient sp_ienv(7)/(8), so that the window where L/U fit but the work arrays do not is reached); lwork=-1; every too-small value 1..60 of each tunable estimate sp_ienv(6)/(7)/(8) alone and together; the recovery path of MemInit (estimates tight after the halving x every single failing request). Outcome must be info>n or the abort path with a diagnostic, never a memory error, a hang, a bogus info or success; with a sufficient buffer L/U lie inside it and results equal the internal-memory run; a query creates no thread.', ref='5 C14',
+                text='For each driver call of a menu (4 matrices x 3 entry paths x 1-4 threads x 4 precisions): request k and all later fail for EVERY k up to the measured number of requests (and single failures); every lwork in 4-byte steps up to 1.25 x the queried estimate with red zones (also with the smallest sufficient sp_ienv(7)/(8), so that the window where L/U fit but the work arrays do not is reached); lwork=-1; every too-small value 1..60 of each tunable estimate sp_ienv(6)/(7)/(8) alone and together; the recovery path of MemInit (estimates tight after the halving x every single failing request). Re-factorization inside a user workspace: first factorization with one thread into a workspace of every size (8-byte steps), then re-factorizations with 2-3 threads (inline workers; default and tight estimates), and under Engine S (K17) every interleaving at bound 1 of the re-factorization in a workspace that serves exactly one worker + 64k bytes. Outcome must be info>n or the abort path with a diagnostic, never a memory error, a hang, a bogus info or success; with a sufficient buffer L/U lie inside it and results equal the internal-memory run; a query creates no thread.', ref='5 C14',
                 note='Trusted base: allocation failure injected at the renamed malloc level; outcome classes from exit status + captured stderr; ASan/UBSan. Threads run inline here; K12 jobs of Engine S cover user workspace under real interleavings.'),
     'C15': dict(cat='exploration', engine='mcargs', tech='bounded-exhaustive enumeration of every single and every ordered pair of documented-precondition violations on legal baselines, with bytewise side-effect and heap-balance oracles',
                 text='8 routines x 20 legal baseline calls (real factors) x all 1258 single violations and 99218 ordered pairs, 4 precisions: info = -i and one xerbla_ call for the documented position of the first offender, every object reachable from the arguments bytewise unchanged, no allocation retained; crashes attributed per case.', ref='5 C15'),
@@ -48,7 +48,7 @@ CLAIMS = {
     'C17': dict(cat='exploration', engine='mchist', tech='bounded-exhaustive enumeration of call histories and driver outcomes against an allocator model (plain map of live blocks)',
                 text='All library allocations are observable (malloc/free renamed at compile time). For every history of C08 and every driver call outcome (success, singular, workspace query) on all patterns n<=3: live blocks after refactor/solve equal those after the first factorization; after the documented clean-up the heap equals its pre-history state.', ref='5 C17'),
     'C18': dict(cat='exploration', engine='mchist', tech='bounded-exhaustive enumeration of (prefix history, probe) pairs with a differential oracle against a fresh process',
-                text='After every history of the C08 alphabet (depth<=4) and after singular / failed-allocation / expert-driver / other-size calls, a fixed probe (first factorization + solves) must produce bit-identical L, U, permutations and solutions to the same probe in a freshly forked process. The reverse-communication estimator ?lacon_ (function-static state): every 2x2/3x3 small-integer matrix estimated after a representative of every iteration class and in reverse catalogue order, bit-compared with the estimate made alone in a fresh process (engines/mclacon).', ref='5 C18, 10'),
+                text='After every history of the C08 alphabet (depth<=4) and after singular / failed-allocation / expert-driver / other-size calls, a fixed probe (first factorization + solves) must produce bit-identical L, U, permutations and solutions to the same probe in a freshly forked process - in the memory mode of the history AND in the other one. The reverse-communication estimator ?lacon_ (function-static state): every 2x2/3x3 small-integer matrix estimated after a representative of every iteration class and in reverse catalogue order, bit-compared with the estimate made alone in a fresh process (engines/mclacon).', ref='5 C18, 10'),
     'C19': dict(cat='exploration', engine='mckern', tech='bounded-exhaustive enumeration of small matrices/factors x the full argument grid of each kernel against dense long-double definitions',
                 text='sp_?gemv / sp_?gemm on all patterns m,n<=3 x op {N,T,C} x alpha/beta incl. 0,1 x increments +-1,+-2 x leading dimensions (padding checked); sp_?trsv for all (uplo,trans,diag) on the real supernodal factors of every nonsingular pattern n<=4 x factor options; ?langs all norms; row-to-column conversion, copy and permuted-view constructors; 4 precisions; each call fork-isolated.', ref='5 C19'),
     'C10': dict(cat='exploration', engine='mcorder', tech='bounded-exhaustive enumeration of all small patterns x orderings against a brute-force symbolic-Cholesky reference',
